@@ -139,6 +139,12 @@ class Folder(object):
 
     def ev_BinOp(self, e):
         a, b = self.ev(e.left), self.ev(e.right)
+        if isinstance(e.op, ast.Mod) and isinstance(a, str):
+            # "..%s.." % x : str() of an abstract coefficient is its text
+            try:
+                return a % (tuple(b) if isinstance(b, (tuple, list)) else b)
+            except Exception as ex:
+                raise Inconclusive("folding %s: %s" % (ast.unparse(e)[:60], ex))
         ok = (int, str, list, tuple)
         if isinstance(a, bool) or isinstance(b, bool):
             raise Inconclusive("arithmetic on bool")
@@ -154,6 +160,8 @@ class Folder(object):
             if isinstance(e.op, ast.FloorDiv):
                 return a // b
             if isinstance(e.op, ast.Mod) and isinstance(a, int):
+                return a % b
+            if isinstance(e.op, ast.Mod) and isinstance(a, str):
                 return a % b
         except Exception as ex:
             raise Inconclusive("folding %s: %s" % (ast.unparse(e), ex))
@@ -276,7 +284,26 @@ class Folder(object):
                 kwargs.update(d)
             else:
                 kwargs[kw.arg] = self.ev(kw.value)
+        if isinstance(f, ast.Lambda):
+            # an applied lambda (an in-lined helper): bind and evaluate the body
+            a_ = f.args
+            if a_.vararg or a_.kwarg or a_.kwonlyargs or len(a_.args) != len(e.args) or e.keywords:
+                raise Inconclusive("applied lambda with a signature that is not positional")
+            saved = dict(self.env)
+            try:
+                vals = [self.ev(x) for x in e.args]
+                for p_, v_ in zip(a_.args, vals):
+                    self.env[p_.arg] = v_
+                return self.ev(f.body)
+            finally:
+                self.env = saved
         if isinstance(f, ast.Name):
+            if f.id == "format" and 1 <= len(e.args) <= 2 and "format" not in self.env:
+                args = [self.ev(a) for a in e.args]
+                try:
+                    return format(*args)
+                except Exception as ex:
+                    raise Inconclusive("folding %s: %s" % (ast.unparse(e)[:60], ex))
             if f.id == "isinstance" and len(e.args) == 2:
                 if self.isinstance_hook is None:
                     raise Inconclusive("isinstance while folding")
